@@ -475,3 +475,65 @@ Proof.
     eapply Rlt_le_trans; [apply (bpow_gt_0 radix2 (-30))|].
     rewrite <- (rnd_id (bpow radix2 (-30))) by (apply fmt_bpow; lia). apply rnd_le. exact B.
 Qed.
+
+(* the same for up to 9223372036 whole seconds, the last value for which
+   int64(d*1e9) does not wrap: d*1e9 is no longer exact (error at most 1024 ns),
+   the slew is at most 500 ppm of the whole seconds plus 1 ns *)
+Lemma slew_numeric_wide d p n : fin d = true -> R d = IZR n -> (1 <= n <= 9223372036)%Z -> fin p = true ->
+  (1000000000 <= dur_of_seconds d <= n * 1000000000 + 1024)%Z /\
+  (Z.abs (dur_of_seconds (clamp d p)) <= 500000 * n + 1)%Z.
+Proof.
+  intros Fd Rd Hn Fp.
+  destruct (f_of_int_spec 1000000000) as [F9 R9]; [lia|].
+  assert (Hn' : 1 <= IZR n <= 9223372036).
+  { split; [apply IZR_le; lia|]. apply IZR_le. lia. }
+  split.
+  - unfold dur_of_seconds.
+    assert (B : Rabs (R d * R (f_of_int 1000000000)) <= bpow radix2 63).
+    { rewrite Rd, R9, Rabs_pos_eq by nra. change (bpow radix2 63) with (IZR (2^63)).
+      change (2^63)%Z with 9223372036854775808%Z. nra. }
+    destruct (fmul_spec d (f_of_int 1000000000) 63 Fd F9) as [Fx [Rx _]]; [lia|exact B|].
+    rewrite Rd, R9 in Rx.
+    assert (Lo : 1000000000 <= rnd (IZR n * 1000000000)).
+    { rewrite <- (rnd_id 1000000000) at 1 by (apply (fmt_int 1000000000); lia). apply rnd_le. nra. }
+    assert (Hi : rnd (IZR n * 1000000000) <= IZR n * 1000000000 + 1024).
+    { eapply Rle_trans; [apply rel_err|].
+      - apply Rle_trans with (bpow radix2 0); [apply bpow_le; lia|]. cbn. nra.
+      - nra. }
+    set (y := rnd (IZR n * 1000000000)) in *.
+    assert (T : (1000000000 <= Ztrunc y <= n * 1000000000 + 1024)%Z).
+    { rewrite Ztrunc_floor by lra. split.
+      - apply Zfloor_lub. exact Lo.
+      - apply Zfloor_le in Hi. rewrite <- mult_IZR, <- plus_IZR, Zfloor_IZR in Hi. exact Hi. }
+    rewrite f_to_i64_spec; rewrite ?Rx; try exact Fx; [exact T|]. unfold min_i64, max_i64. lia.
+  - destruct (clamp_spec d p n Fd Rd) as [_ [_ [_ [_ [Fc Bc]]]]]; [lia|exact Fp|].
+    set (c := clamp d p) in *. set (H := rnd (IZR n * C5)) in *.
+    pose proof C5_bounds as CB.
+    assert (HH : / 2048 <= H <= IZR n * C5 * (1 + / 9007199254740992)).
+    { subst H. split.
+      - replace (/ 2048) with (bpow radix2 (-11)) by (cbn; lra).
+        rewrite <- (rnd_id (bpow radix2 (-11))) by (apply fmt_bpow; lia). apply rnd_le. cbn. nra.
+      - apply rel_err. apply Rle_trans with (bpow radix2 (-11)); [apply bpow_le; lia|]. cbn. nra. }
+    assert (HU : H <= 9007200) by nra.
+    assert (B : Rabs (R c * R (f_of_int 1000000000)) <= bpow radix2 54).
+    { rewrite R9, Rabs_mult, (Rabs_pos_eq 1000000000) by lra.
+      assert (Rabs (R c) <= H) by (apply Rabs_le; lra).
+      change (bpow radix2 54) with (IZR (2^54)). change (2^54)%Z with 18014398509481984%Z. nra. }
+    unfold dur_of_seconds.
+    destruct (fmul_spec c (f_of_int 1000000000) 54 Fc F9) as [Fx [Rx _]]; [lia|exact B|].
+    rewrite R9 in Rx.
+    assert (V : rnd (H * 1000000000) <= H * 1000000000 * (1 + / 9007199254740992)).
+    { apply rel_err. apply Rle_trans with (bpow radix2 0); [apply bpow_le; lia|]. cbn. nra. }
+    assert (A : Rabs (rnd (R c * 1000000000)) <= rnd (H * 1000000000)).
+    { apply Rabs_le. split.
+      - replace (- rnd (H * 1000000000)) with (rnd (- H * 1000000000)).
+        + apply rnd_le. nra.
+        + replace (- H * 1000000000) with (- (H * 1000000000)) by ring. apply round_NE_opp.
+      - apply rnd_le. nra. }
+    assert (Fin : Rabs (R (fmul c (f_of_int 1000000000))) < IZR (500000 * n + 1) + 1).
+    { rewrite Rx. eapply Rle_lt_trans; [exact A|]. eapply Rle_lt_trans; [exact V|].
+      rewrite plus_IZR, mult_IZR. unfold C5 in HH. change (Zpower_pos 2 63) with 9223372036854775808%Z in HH.
+      nra. }
+    pose proof (Ztrunc_abs_lt _ _ Fin) as T.
+    rewrite f_to_i64_spec; [exact T|exact Fx|]. unfold min_i64, max_i64. lia.
+Qed.
